@@ -16,3 +16,7 @@ func TestC14Enum(t *testing.T) { RunEnum(t, propC14) }
 func TestC15(t *testing.T)     { RunProp(t, propC15) }
 func TestC12(t *testing.T)     { RunProp(t, propC12) }
 func TestC12Enum(t *testing.T) { RunEnum(t, propC12) }
+func TestC07(t *testing.T)     { RunProp(t, propC07) }
+func TestC07Sub(t *testing.T)  { RunProp(t, propC07Sub) }
+func TestC08(t *testing.T)     { RunProp(t, propC08) }
+func TestC08Sub(t *testing.T)  { RunProp(t, propC08Sub) }
